@@ -238,6 +238,16 @@ def build():
     one(r"Ttl::from_secs\(\s*\(u32::from\(self\.ext_rcode\)\s*<<\s*24\)\s*\|\s*\(u32::from\(self\.version\)\s*<<\s*16\)\s*\|\s*u32::from\(self\.flags\),?\s*\)", opt, "OptRecord::as_record TTL packing")
     defs.append(("opt_clone_from_anchored", "bool", "true"))
 
+    # ---- HashCompressor: entry and query hash the same (label, tail) pair, the rehash closure
+    #      re-reads the label from the message, Label::hash feeds length + lower-cased octets
+    one(r"fn hash\(&self, message: &\[u8\], hasher: &DefaultHashBuilder\)\s*->\s*u64\s*\{\s*hasher\.hash_one\(\(self\.head\(message\), self\.tail\)\)\s*\}", src, "HashEntry::hash")
+    one(r"fn eq\(&self, message: &\[u8\], query: \(&Label, u16\)\)\s*->\s*bool\s*\{\s*\(self\.head\(message\), self\.tail\)\s*==\s*query\s*\}", src, "HashEntry::eq")
+    one(r"let query = \(label, position\);\s*let hash = self\.hasher\.hash_one\(query\);\s*let entry =\s*self\.names\.find\(hash, \|&name\| name\.eq\(message, query\)\);", src, "HashCompressor lookup")
+    one(r"let hash = entry\.hash\(message, hasher\);\s*self\.names\.insert_unique\(hash, entry, \|&name\| \{\s*name\.hash\(message, hasher\)\s*\}\);", src, "HashCompressor insert")
+    lb0 = strip_comments(read("src/base/name/label.rs"))
+    one(r"impl hash::Hash for Label\s*\{\s*fn hash<H: hash::Hasher>\(&self, state: &mut H\)\s*\{\s*\(self\.len\(\) as u8\)\.hash\(state\);\s*for c in self\.iter\(\)\s*\{\s*c\.to_ascii_lowercase\(\)\.hash\(state\)\s*\}\s*\}", lb0, "Label::hash")
+    defs.append(("hash_key_anchored", "bool", "true"))
+
     # ---- Label equality / hashing fold ASCII case (Static and Hash compressors), tree does not
     lb = strip_comments(read("src/base/name/label.rs"))
     one(r"impl<T: AsRef<\[u8\]> \+ \?Sized> PartialEq<T> for Label\s*\{\s*fn eq\(&self, other: &T\)\s*->\s*bool\s*\{\s*self\.as_slice\(\)\.eq_ignore_ascii_case\(other\.as_ref\(\)\)", lb, "Label::eq")
